@@ -972,6 +972,12 @@ static void worker(int w, int W, uint64_t start)
         g.cb = on_doc_plain;
         vf_gen_run(&g);
     }
+    /* 3b'. sibling family: every pair (thorough: and triple) of small sibling subtrees, documents only */
+    {
+        memset(&g, 0, sizeof g);
+        g.cb = on_doc_plain;
+        vf_sibling_run(&g, vf_g.thorough ? 2 : 1);
+    }
     /* 3c. payloads that need a 2-byte and a 4-byte length prefix (string, bytes, name), in the smallest shapes */
     {
         static vf_doc bd;
